@@ -456,6 +456,11 @@ def gen_freq_force(np, r, s, allow_zero=True, psd=False):
         freq[int(r.integers(nf))] = 0.0
     if nf >= 4 and r.random() < 0.2:
         freq[nf - 1] = freq[nf - 2]                    # duplicate
+    if nf >= 2 and r.random() < 0.2:
+        # two-sided spectra (np.fft.fftfreq ordering): negative frequencies are legal
+        neg = r.random(nf) < 0.5
+        freq[neg] = -freq[neg]
+        s["_negfreq"] = True
     if r.random() < 0.5:
         freq = np.sort(freq)
     fkind = ["complex", "rank1", "real", "sparse", "complex", "rank1"][int(r.integers(6))]
@@ -1209,6 +1214,15 @@ def run_psd_case(sh, np, ode, s, objs, i, fam):
     nfrc = int(r.integers(1, 4))
     forcepsd = _logu(r, 1e-3, 1e3, (nfrc, 1)) * (0.2 + r.random((nfrc, nf)))
     t_frc = r.standard_normal((n, nfrc))
+    if r.random() < 0.3:
+        # a force that does not act on the equations of motion (zero t_frc column): it
+        # still reaches the response through the direct term drmf[:, i]
+        t_frc[:, int(r.integers(nfrc))] = 0.0
+        sh.count("cell:psd-zero-tfrc-column")
+    if nfrc > 1 and r.random() < 0.15:
+        forcepsd[int(r.integers(nfrc))] = 0.0          # a force with no PSD content
+    if r.random() < 0.2:
+        t_frc[r.random(n) < 0.5] = 0.0                  # forces on a few DOF only
     ndrm = int(r.integers(1, 5))
     drmlist = []
     for q in range(ndrm):
